@@ -42,6 +42,7 @@ RULE += (
          'Slices in expressions; the harness guard refuses slices '
          'covering a refused element. ')
 RULE += ('Round 8: class-defined attributes (method, property) refused per object; attributes of texts and numbers read in expressions under a guard that refuses them. ')
+RULE += ('Round 9: the sort attribute looked up by name in the loop body. ')
 ASSUMPTIONS = [
     'the guard is the documented extension point: guarded_getattr / '
     'guarded_getitem supplied by the template class',
